@@ -120,3 +120,49 @@ def judge(scen, res):
     if so.get("b_spun"):
         return "reader still running after %d of its own steps (last: %s)" % (so.get("b_steps", 0), so.get("b_labels", [])[-4:])
     return "reader did not finish: %s" % {k: v for k, v in so.items() if k != "b_labels"}
+
+
+# ----------------------------------------------------------------------------
+# directed families for C03 / C04 / C08: a resize frozen at every point, and a writer
+# parked inside its user function (holding its bucket) while another thread resizes
+
+def _st(cont, k, v):
+    return {"op": "Set", "k": k, "v": v, "d": NOEXP} if cont.startswith("Cache") else {"op": "Store", "k": k, "v": v}
+
+def _sparse_setup(cont, hasher):
+    """a table grown to 128 buckets and emptied down to just above the shrink threshold"""
+    map_like = cont in ("Map", "Cache")
+    n = 150 if map_like else 250
+    keep = 4 if map_like else 6
+    s = [_st(cont, 2000 + i, 7000 + i) for i in range(n)]
+    s += [{"op": "Delete", "k": 2000 + i} for i in range(n - keep)]
+    return s, [2000 + i for i in range(n - keep, n)]
+
+def resize_families(tier, containers):
+    scen, n = [], 0
+    quick = tier == "quick"
+    for cont, hasher in containers:
+        base = dict(container=cont, layout=False)
+        if hasher:
+            base["hasher"] = hasher
+        pre = _prefill(cont, hasher)
+        # (1) a grow frozen after K of its steps; then another thread's calls, alone; then everybody
+        for K in range(2, 260, 9 if quick else 2):
+            for bops in ([{"op": "Clear"}, {"op": "Get" if cont.startswith("Cache") else "Load", "k": 1000}],
+                         [_st(cont, 1001, 42), {"op": "Get" if cont.startswith("Cache") else "Load", "k": 1001}],
+                         [{"op": "Delete", "k": 1002}, {"op": "Count" if cont.startswith("Cache") else "Size"}]):
+                n += 1
+                scen.append(dict(base, id="rz_%d" % n, setup=pre, threads=[[_st(cont, 9, 109)], bops],
+                                 sched=dict(kind="solo-after", a=0, b=1, k=K, b_max=3000), max_steps=150000, note="grow frozen k=%d" % K))
+        # (2) a writer parked in its user function on an absent key while another thread grows / shrinks / clears
+        if not cont.startswith("Cache"):
+            sparse, left = _sparse_setup(cont, hasher)
+            for k in range(1, 40 if quick else 120):
+                for setup, trigger, what in ((pre, _st(cont, 9, 109), "grow"), (sparse, {"op": "Delete", "k": left[0]}, "shrink"), (pre[:20], {"op": "Clear"}, "clear")):
+                    for aop in ({"op": "Compute", "k": 500 + k, "fn": "set:%d" % (600 + k), "park": "fn"},
+                                {"op": "LoadOrCompute", "k": 500 + k, "v": 700 + k, "park": "fn"}):
+                        n += 1
+                        scen.append(dict(base, id="rz_%d" % n, setup=setup, threads=[[aop], [trigger, {"op": "Size"}]],
+                                         sched=dict(kind="solo-after", a=0, b=1, park="fn", b_max=4000), max_steps=150000,
+                                         note="writer parked in fn, other thread: %s" % what))
+    return scen
